@@ -63,11 +63,85 @@ Qed.
 (* parse_write_parse: for every accepted text, writing the parsed document and parsing it again
    yields an equivalent document *)
 Theorem parse_write_parse :
-  (forall v b, prs v = Some b -> fin b = true) ->
+  (forall v b, not_special v = true -> prs v = Some b -> fin b = true) ->
   forall t f, parse ud prs hex t = OOk f ->
   exists f', parse ud prs hex (write fmt hex f) = OOk f' /\ equiv f' f.
 Proof.
   intros Hfin t f H. apply parse_write_equiv. eapply parse_output_expressible; eauto.
+Qed.
+
+(* the same, exactly: the re-parsed document is [norm_file f], and from then on nothing changes
+   any more (write/parse is a projection) *)
+Theorem parse_write_parse_exact :
+  (forall v b, not_special v = true -> prs v = Some b -> fin b = true) ->
+  forall t f, parse ud prs hex t = OOk f ->
+  parse ud prs hex (write fmt hex f) = OOk (norm_file fmt hex f) /\
+  parse ud prs hex (write fmt hex (norm_file fmt hex f)) = OOk (norm_file fmt hex f).
+Proof.
+  intros Hfin t f H.
+  assert (H1 : parse ud prs hex (write fmt hex f) = OOk (norm_file fmt hex f))
+    by (apply parse_write; eapply parse_output_expressible; eauto).
+  split; [exact H1|].
+  rewrite <- (norm_file_idem f) at 2. apply parse_write. eapply parse_output_expressible; eauto.
+Qed.
+
+(* what [norm_file] changes, named: a document is a fixed point exactly when its version is not
+   empty, its three header sections are present and every numeric attribute literal is already in
+   read-back form *)
+Definition val_fixed (v : attr_val) : Prop :=
+  match v with
+  | AVInt _ | AVString _ => True
+  | AVHex _ => hex = true
+  | AVFloat b => has_dot (fmt b) = true \/ parse_int (fmt b) = None
+  end.
+
+Lemma val_norm_fixed : forall v, val_norm fmt hex v = v <-> val_fixed v.
+Proof.
+  intros [z|n|b|s]; cbn [val_norm val_fixed]; try tauto.
+  - destruct hex; split; intros H; try reflexivity; try discriminate; congruence.
+  - destruct (has_dot (fmt b)); [tauto|]. destruct (parse_int (fmt b)); split; intros H.
+    + discriminate.
+    + destruct H; discriminate.
+    + right; reflexivity.
+    + reflexivity.
+Qed.
+
+Definition file_fixed (f : file) : Prop :=
+  f_version f <> [] /\ f_ns f <> None /\ f_bs f <> None /\ f_bu f <> None /\
+  Forall (fun d => val_fixed (af_value d)) (f_afs f) /\ Forall (fun v => val_fixed (av_value v)) (f_avs f).
+
+Lemma map_fixed : forall A (g : A -> A) l, map g l = l <-> Forall (fun x => g x = x) l.
+Proof.
+  intros A g l. induction l as [|x l IH]; cbn [map]; [split; constructor|]. split; intros H.
+  - injection H as H1 H2. constructor; [exact H1|]. apply IH. exact H2.
+  - inversion H as [|x' l' H1 H2]; subst. f_equal; [exact H1|]. apply IH. exact H2.
+Qed.
+
+Theorem norm_file_fixed : forall f, norm_file fmt hex f = f <-> file_fixed f.
+Proof.
+  intros f. destruct f as [ver ns bs bu vts msgs txs evs eds sts cms ads afs avs ves srs sgs svs xms].
+  unfold norm_file, file_fixed, ver_of, ns_of, bs_of, bu_of.
+  cbn [f_version f_ns f_bs f_bu f_vts f_msgs f_txs f_evs f_eds f_sts f_cms f_ads f_afs f_avs f_ves f_srs f_sgs f_svs f_xms].
+  split.
+  - intros H. injection H as Hv Hn Hb Hu Haf Hav.
+    repeat split.
+    + destruct ver; [discriminate Hv|discriminate].
+    + destruct ns; [discriminate|discriminate Hn].
+    + destruct bs; [discriminate|discriminate Hb].
+    + destruct bu; [discriminate|discriminate Hu].
+    + apply map_fixed in Haf. rewrite Forall_forall in *. intros d Hd. specialize (Haf d Hd).
+      unfold norm_default in Haf. destruct d as [nm v]. cbn [af_name af_value] in *. injection Haf as Hval. apply val_norm_fixed. exact Hval.
+    + apply map_fixed in Hav. rewrite Forall_forall in *. intros d Hd. specialize (Hav d Hd).
+      unfold norm_value in Hav. destruct d as [nm rf v]. cbn [av_name av_ref av_value] in *. injection Hav as Hval. apply val_norm_fixed. exact Hval.
+  - intros (Hv & Hn & Hb & Hu & Haf & Hav). f_equal.
+    + destruct ver; [congruence|reflexivity].
+    + destruct ns; [reflexivity|congruence].
+    + destruct bs; [reflexivity|congruence].
+    + destruct bu; [reflexivity|congruence].
+    + apply map_fixed. rewrite Forall_forall in *. intros d Hd. specialize (Haf d Hd). destruct d as [nm v]. unfold norm_default.
+      cbn [af_name af_value] in *. f_equal. apply val_norm_fixed. exact Haf.
+    + apply map_fixed. rewrite Forall_forall in *. intros d Hd. specialize (Hav d Hd). destruct d as [nm rf v]. unfold norm_value.
+      cbn [av_name av_ref av_value] in *. f_equal. apply val_norm_fixed. exact Hav.
 Qed.
 
 End RoundTrip.
